@@ -139,6 +139,8 @@ pub struct SessionCfg {
     pub compression: Option<scylla::frame::Compression>,
     pub retry: Option<Arc<dyn RetryPolicy>>,
     pub profile: Option<ExecutionProfile>,
+    /// Session-level location preference (SessionBuilder::prefer_datacenter[_and_rack]).
+    pub prefer: Option<(String, Option<String>)>,
 }
 
 impl Default for SessionCfg {
@@ -157,6 +159,7 @@ impl Default for SessionCfg {
             compression: None,
             retry: None,
             profile: None,
+            prefer: None,
         }
     }
 }
@@ -211,6 +214,11 @@ pub async fn build_session(cfg: &SessionCfg) -> Result<Session, NewSessionError>
         }
     };
     b = b.default_execution_profile_handle(profile.into_handle());
+    b = match &cfg.prefer {
+        Some((dc, Some(rack))) => b.prefer_datacenter_and_rack(dc.clone(), rack.clone()),
+        Some((dc, None)) => b.prefer_datacenter(dc.clone()),
+        None => b,
+    };
     b.build().await
 }
 
